@@ -11,7 +11,7 @@ open Panrpc
 
 theorem cur_hyp : Hyp Skeleton.current :=
   ⟨by decide, by decide, by decide, by decide, by decide⟩
-theorem cur_resp : RespHyp Skeleton.current := ⟨by decide, by decide, by decide⟩
+theorem cur_resp : RespHyp Skeleton.current := ⟨by decide, by decide, by decide, by decide⟩
 theorem cur_mapped : Skeleton.current.ucNonErrorPanicMapped = true := by decide
 theorem cur_callErr : Skeleton.current.reqCallErrSetErr = true := by decide
 theorem cur_resolveErr : Skeleton.current.reqResolveErrSetErr = true := by decide
